@@ -7,13 +7,18 @@
    real library (Trace_ArgConv.tla). *)
 EXTENDS Integers, Sequences, FiniteSets, TLC
 
-Kinds == {"ptr", "error", "any", "slice", "map", "chan", "func", "struct", "array", "int", "float", "string", "bool"}
-Classes == {"nil", "typednil", "zero", "val", "concrete", "nilconcrete", "lookalike", "samesize", "diffsize"}
+IntKinds == {"int", "int64", "uint64", "uint", "uintptr"}      \* (int32 etc.: a plain int differs in size and is rejected, cell diffsize)
+Kinds == {"ptr", "error", "any", "slice", "map", "chan", "func", "struct", "array", "int", "float", "string", "bool"} \cup IntKinds
+\* "intconst": a condition written as a plain constant (type int) on an integer parameter of kind k (When path only):
+\* it selects exactly the calls whose argument has that value - compared as a value of the declared type, however large
+Classes == {"nil", "typednil", "zero", "val", "concrete", "nilconcrete", "lookalike", "samesize", "diffsize", "intconst"}
 Nilable == {"ptr", "error", "any", "slice", "map", "chan", "func"}
 IfaceK == {"error", "any"}
 
 \* which cells exist
-Cell(k, c) == CASE c = "nil" -> TRUE
+Cell(k, c) == CASE c = "intconst" -> k \in IntKinds
+                [] k \in IntKinds \ {"int"} -> FALSE
+                [] c = "nil" -> TRUE
                 [] c = "typednil" -> k \in {"ptr", "slice", "map", "chan", "func"}
                 [] c \in {"zero", "val"} -> k \notin IfaceK
                 [] c = "concrete" -> k \in IfaceK
@@ -22,7 +27,8 @@ Cell(k, c) == CASE c = "nil" -> TRUE
                 [] c = "samesize" -> k \in {"int", "float", "struct"}
                 [] c = "diffsize" -> k \in {"int", "float", "struct", "array", "string", "bool", "slice", "map"}
 
-Req(k, c) == CASE c = "nil" -> (IF k \in Nilable THEN "typedzero" ELSE "free")
+Req(k, c) == CASE c = "intconst" -> "exact"
+               [] c = "nil" -> (IF k \in Nilable THEN "typedzero" ELSE "free")
                [] c \in {"typednil", "zero", "val"} -> "same"
                [] c \in {"concrete", "nilconcrete"} -> "boxed"
                [] c = "lookalike" -> "retyped"
@@ -31,6 +37,7 @@ Req(k, c) == CASE c = "nil" -> (IF k \in Nilable THEN "typedzero" ELSE "free")
 
 \* toValue, in the order of its arms
 Impl(k, c) ==
+    IF c = "intconst" THEN "exact" ELSE        \* arg.equal compares two numbers by their decimal text
     LET isnil == c = "nil" IN
     LET sameType == c \in {"typednil", "zero", "val"} IN
     LET sizeEq == c # "diffsize" IN
